@@ -14,7 +14,7 @@ import json
 import os
 
 from mon import refbufr as R
-from mon import handover
+from mon import handover, midscan
 from mon import nested
 from mon.compare import td_of
 from mon.gen import cases
@@ -30,7 +30,7 @@ RULE = ('R-produced messages (random templates with sequences, fixed/delayed/zer
         'associated, marker and quality attributes) and sample files x every structure-derived path (depth <= 6) x slice '
         'variants (none, 0, 1, 2, -1, -2, [:], [1:], [::2], [::-1], [0:1], [-2:]) drawn per step x subset selectors; '
         'bare element IDs; non-trivial = non-empty result; distinct by SHA-1 of (message bytes, expression); mixed-sign slices; selector queries over several subsets judged per subset (attribute paths first); same-layout-different-bitmap subsets; `pybufrkit query` (text, -j, -j -n, two files, -t <tables root>)')
-RULE += '; added with rounds 10-12: results of queries on earlier messages read after later queries of the same querent; paths written with tabs / line ends; twins'
+RULE += '; added with rounds 10-12: results of queries on earlier messages read after later queries of the same querent; paths written with tabs / line ends; bare-ID queries on messages delivered / decoded while scans are suspended (mid-scan scenarios); twins'
 ASSUMPTIONS = ['the nested JSON rendering is the reference structure (its own correctness is C07/C09)',
                'a step applied to a node without members/attributes, or a final node without a value, is unspecified (library: QueryError) and not judged',
                'bare-ID clause is judged for element IDs (F=0) outside class 31 that never occur as an attribute or factor in the message '
@@ -123,6 +123,49 @@ def attribute_ids(nodes, out):
                 attribute_ids(mem, out)
 
 
+def judge_bare_ids(kind, m, exp, opts):
+    """C16's bare-ID clause as the oracle for a message delivered / decoded in the middle of other work: for an ordinary element
+    (never an attribute, no valueless occurrence) the bare ID returns, per subset, the values carrying that label in the flat data"""
+    from pybufrkit.renderer import NestedJsonRenderer
+    from pybufrkit.dataquery import NodePathParser, DataQuerent
+    if kind != 'full':
+        return None
+    if opts.get('wire_template_data') is False:
+        m.wire()
+    nj = NestedJsonRenderer().render(m)
+    nodes_all = json.loads(json.dumps(nj[-2][-1]['value'], default=lambda b: b.decode('latin-1')))
+    td = td_of(m)
+    nsub = len(nodes_all)
+    if not nsub or all(not sub for sub in nodes_all):
+        if any(len(v) for v in td.decoded_values_all_subsets):
+            return ('hierarchical-view-empty', 'the message holds %d values but its hierarchical view is empty: no path can be evaluated'
+                    % sum(len(v) for v in td.decoded_values_all_subsets))
+        return None
+    skip = set()
+    for sub in nodes_all:
+        attribute_ids(sub, skip)
+        valueless_ids(sub, skip)
+    labels_all = [[str(d) for d in ds] for ds in td.decoded_descriptors_all_subsets]
+    ids = []
+    for lab in labels_all[0]:
+        if lab[0] == '0' and lab[:3] != '031' and lab not in skip and lab not in ids:
+            ids.append(lab)
+    q = DataQuerent(NodePathParser())
+    for lab in ids[:4]:
+        try:
+            qr = q.query(m, lab)
+        except Exception as ex:
+            return ('bare-id-raises:%s' % type(ex).__name__, 'bare ID query %r raised %s' % (lab, type(ex).__name__))
+        if qr.subset_indices() != list(range(nsub)):
+            return ('bare-id-subsets', 'bare ID query %r returned subsets %r' % (lab, qr.subset_indices()))
+        for k in range(nsub):
+            want = [norm(v) for l, v in zip(labels_all[k], td.decoded_values_all_subsets[k]) if l == lab]
+            got = norm(qr.get_values(k, flat=True))
+            if got != want:
+                return ('bare-id-values', 'bare ID %r in subset %d returned %r, flat data has %r' % (lab, k, got[:6], want[:6]))
+    return None
+
+
 def query_message(ctx, q, m, spec, origin, npaths):
     """compare the real querent with the evaluator on message m. Returns the list of (expr) used."""
     from pybufrkit.renderer import NestedJsonRenderer
@@ -142,6 +185,20 @@ def query_message(ctx, q, m, spec, origin, npaths):
     nsub = len(nodes_all)
     if nsub == 0:
         return []
+    try:
+        # what a bare ID returns does not depend on the scans and decodes under way on the decoder that delivered the message
+        recent = ctx.__dict__.setdefault('_c16_recent', [])
+        if origin in ('random', 'shape') and len(sb) < 3000 and sb[:4] == b'BUFR' and sb.count(b'BUFR') == 1 and sb[7] != 0 and \
+                int.from_bytes(sb[4:7], 'big') == len(sb) and m.data_category.value != 11:
+            recent.append((sb, None))
+        if len(recent) >= 6:
+            ctx.count('mid_scan_blocks')
+            if ctx.counters['mid_scan_blocks'] % (4 if ctx.quick else 2) == 1:
+                from pybufrkit.decoder import Decoder
+                midscan.scenarios(ctx, 'bare-id', Decoder, recent[:3], recent[3:6], judge_bare_ids, dict(origin='mid-scan'))
+            del recent[:]
+    except NameError:
+        pass
     mode = 'c' if m.is_compressed.value else 'u'
     allp = []
     for sub in nodes_all[:3]:
